@@ -858,6 +858,10 @@ def _call_sites(prog, b, cmap):
                 a_ = hir.strip(a_)
                 if a_.get("k") == "Path" and a_["res"].get("k") == "Def" and (a_["res"].get("rp") or a_["res"].get("p")) == b["p"]:
                     hb = hir.local_callee_body(prog, cn)
+                    if hb is None and cn.get("k") == "MethodCall" and cn["m"] in ("and_then", "map", "map_or", "map_or_else", "filter_map", "find_map", "then"):
+                        # handed to a std combinator (`cursor.and_then(hover_at)`): invoked right there, with what the receiver holds
+                        res.append((cb, cn, cparents))
+                        continue
                     if hb is None or hb["_crate"] is not bc or j_ >= len(hb["params"]) or hb["params"][j_].get("k") != "Binding":
                         continue
                     pid = hb["params"][j_]["id"]
@@ -880,6 +884,22 @@ def _position_markers_at(prog, b, node, parents, cmap, depth):
     param_ids = {pp["id"] for q in b["params"] for pp in hir.pat_bindings(q)}
     operands = {(hir.path_local(x) or {}).get("id") for r in (list(node.get("args") or []) + ([node["recv"]] if node.get("recv") else []))
                 for x in hir.nodes(r)}
+    if depth > 0 and not (operands & param_ids):
+        # (the operands may be taken out of a parameter first: `let ident = cursor.ident()?;`)
+        defs_ = {}
+        for l_ in hir.nodes(b["body"]):
+            if l_.get("k") in ("Let", "LetExpr") and l_.get("init") is not None and l_.get("pat"):
+                for bd in hir.pat_bindings(l_["pat"]):
+                    defs_.setdefault(bd["id"], l_["init"])
+        front, seen_ = set(operands), set()
+        for _ in range(4):
+            nxt_ = set()
+            for i_ in front - seen_:
+                seen_.add(i_)
+                if i_ in defs_:
+                    nxt_ |= {(hir.path_local(x) or {}).get("id") for x in hir.nodes(defs_[i_])}
+            front = nxt_ - {None}
+            operands = operands | front
     if depth > 0 and (operands & param_ids):
         # a helper that receives the identifier / the context: what its callers did before the call counts as well (all of them)
         per = []
@@ -1490,6 +1510,12 @@ def rule_semtok_pairing(prog):
     fns = [b for b in c.bodies if b["p"].startswith("lsp4spl::features::semantic_tokens::") and b["k"] == "fn" and "/tests" not in c.file_of(b["sp"]) and
            (b["name"].startswith("collect_") or ("sig_out" in b and "Vec<lsp_types::SemanticToken>" in c.tstr(b["sig_out"]).replace(" ", "")))]
     if len(fns) < 2:
+        # the collectors may be methods of an emitter that owns the output vector: functions of the module that are handed a token slice
+        # and answer with nothing
+        fns = [b for b in c.bodies if b["p"].startswith("lsp4spl::features::semantic_tokens::") and b["k"] in ("fn", "assoc_fn") and
+               "/tests" not in c.file_of(b["sp"]) and "sig_in" in b and c.tstr(b["sig_out"]).strip() == "()" and
+               any("[spl_frontend::tokens::Token]" in c.tstr(t_).replace(" ", "") for t_ in b["sig_in"])]
+    if len(fns) < 2:
         out.missing("semantic_tokens::collect_* (found %d)" % len(fns))
         return out
     # the handler itself: everything behind the last declaration (comments in front of end-of-file belong to no declaration) is
@@ -1500,6 +1526,12 @@ def rule_semtok_pairing(prog):
     if not handler:
         out.missing("semantic token handler (caller of collect_*)")
     else:
+        # (the caller of the collectors that also cuts the document's tokens behind the last declaration, if there are several)
+        def _cuts_tail(h_):
+            return any(ix_.get("k") == "Index" and "RangeFrom" in (hir.strip(ix_["idx"]).get("adt") or "") and
+                       any(x_.get("k") == "MethodCall" and x_["m"] == "last" for x_ in hir.nodes(h_["body"]))
+                       for ix_ in hir.nodes(h_["body"]))
+        handler = sorted(handler, key=lambda h_: 0 if _cuts_tail(h_) else 1)
         hb = handler[0]
         defs_ = {}
         for l in hir.nodes(hb["body"], "Let"):
@@ -1517,8 +1549,13 @@ def rule_semtok_pairing(prog):
             pl = hir.path_local(hir.strip(start))
             if pl and pl["id"] in defs_:
                 roots.append(defs_[pl["id"]])
-            if any(x.get("k") == "MethodCall" and x["m"] == "last" and
-                   any(f.get("k") == "Field" and f["name"] == "global_declarations" for f in hir.nodes(x["recv"]))
+            def _decls(e_):
+                if any(f.get("k") == "Field" and f["name"] == "global_declarations" for f in hir.nodes(e_)):
+                    return True
+                pl_ = hir.path_local(hir.strip_ref(hir.strip(e_)))
+                return bool(pl_) and pl_["id"] in defs_ and any(
+                    f.get("k") == "Field" and f["name"] == "global_declarations" for f in hir.nodes(defs_[pl_["id"]]))
+            if any(x.get("k") == "MethodCall" and x["m"] == "last" and _decls(x["recv"])
                    for r in roots for x in hir.nodes(r)):
                 covered = True
                 # the closure that turns these tokens into semantic tokens
@@ -1558,6 +1595,12 @@ def rule_semtok_pairing(prog):
                 continue
             by_scope.setdefault(id(scope), (scope, []))[1].append((n, list(parents)))
         for scope, assigns in by_scope.values():
+            # per-token code: the scope iterates tokens (or indices); a closure over the *declarations* that stores the base a collector
+            # handed back is not per-token code
+            sp_bds_ = [bd for pp in (list(scope.get("params") or []) + ([scope["pat"]] if scope.get("pat") else [])) for bd in hir.pat_bindings(pp)]
+            if sp_bds_ and not any(hir.adt_path(c, bd["bt"]) == "spl_frontend::tokens::Token" or
+                                   c.tstr(bd["bt"]).replace("&", "").strip() in ("usize", "u32", "u64", "i32") for bd in sp_bds_):
+                continue
             n_units += 1
             prev = place(assigns[0][0]["l"])
             same = [x for x in assigns if place(x[0]["l"]) == prev]
@@ -1607,6 +1650,11 @@ def rule_semtok_pairing(prog):
                     if not in_then:
                         continue
                     if cond.get("k") == "MethodCall" and cond["m"] == "is_some" and tail is not None and place(cond["recv"]) == tail:
+                        g_ok = True
+                    # loop form: the tested value is what is handed to the output afterwards (`out.extend(semantic_token)`)
+                    if cond.get("k") == "MethodCall" and cond["m"] == "is_some" and place(cond["recv"]) and scope.get("k") != "Closure" and any(
+                            x.get("k") == "MethodCall" and x["m"] in ("push", "extend", "push_back") and
+                            any(place(a_) == place(cond["recv"]) for a_ in x["args"]) for x in hir.nodes(scope["body"])):
                         g_ok = True
                     if cond.get("k") == "LetExpr" and any(v.endswith("Option::Some") for v in hir.pat_variants_all(cond["pat"])):
                         bds = ["%s#%s" % (bd["name"], bd["id"]) for bd in hir.pat_bindings(cond["pat"])]
@@ -1689,6 +1737,8 @@ def rule_semtok_pairing(prog):
         byval = [p_ for p_ in b["params"] if p_.get("k") == "Binding" and c.tstr(p_["bt"]).replace(" ", "") == "lsp_types::Position"]
         if not byval or "sig_out" not in b or "Vec<" not in c.tstr(b["sig_out"]):
             continue
+        if "Position" in c.tstr(b["sig_out"]):
+            continue   # the advanced base is handed back beside the tokens: the caller stores it
         for p_ in byval:
             ids_ = {p_["id"]}
             for l_ in hir.nodes(b["body"], "Let"):    # (`let mut base = base;`)
@@ -1705,7 +1755,8 @@ def rule_semtok_pairing(prog):
                     arg_ = hir.path_local(hir.strip(call["args"][pi_]))
                     if not arg_:
                         continue
-                    repeated = any(q_.get("k") in ("Closure", "ForLoop", "While", "Loop") for q_ in cps)
+                    repeated = any(q_.get("k") in ("ForLoop", "While", "Loop") or
+                                   (q_.get("k") == "Closure" and not str(q_.get("ck", "")).startswith("Coroutine")) for q_ in cps)
                     used_later = False
                     chain_ = list(cps) + [call]
                     for i_, q_ in enumerate(chain_[:-1]):
@@ -1736,7 +1787,8 @@ def rule_semtok_pairing(prog):
                         continue
                     n_byval += 1
                     loc_ = hir.path_local(hir.strip(a_["e"]))
-                    scopes_ = [q_ for q_ in cps if q_.get("k") in ("Closure", "ForLoop", "While", "Loop")]
+                    scopes_ = [q_ for q_ in cps if q_.get("k") in ("ForLoop", "While", "Loop") or
+                               (q_.get("k") == "Closure" and not str(q_.get("ck", "")).startswith("Coroutine"))]
                     if not loc_ or not scopes_:
                         continue
                     inner_ = scopes_[-1]
@@ -1934,15 +1986,23 @@ def rule_fmt_pure(prog):
     if not ind:
         out.missing("FormattingOptions::indentation")
     else:
-        ok = False
+        # the count: the second argument of vec![sym; n], the argument of str::repeat / Iterator::take behind iter::repeat, the end of
+        # `0..n`.  A plain field of the options holds; arithmetic or a literal in its place contradicts; no such expression: undecided
+        counts = []
         for call in hir.nodes(ind[0]["body"], "Call"):
-            if last(hir.callee(call) or "") == "from_elem" and len(call["args"]) == 2:
-                t0, t1 = c.tstr(call["args"][0]["t"]), c.tstr(call["args"][1]["t"])
-                a0, a1 = place(call["args"][0]) or "", place(call["args"][1]) or ""
-                ok = "." in a0 and "." in a1 and t0 == "char" and t1 == "usize"
+            if last(hir.callee(call) or "") in ("from_elem", "repeat_n") and len(call["args"]) == 2:
+                counts.append(call["args"][1])
         for mc in hir.nodes(ind[0]["body"], "MethodCall"):
-            if mc["m"] == "repeat" and mc["args"] and c.tstr(mc["args"][0]["t"]) == "usize" and "." in (place(mc["args"][0]) or ""):
-                ok = True
+            if mc["m"] in ("repeat", "take") and mc["args"] and c.tstr(hir.strip(mc["args"][0])["t"]) == "usize":
+                counts.append(mc["args"][0])
+        for st_ in hir.nodes(ind[0]["body"], "Struct"):
+            if (st_.get("adt") or "").startswith("core::ops::range::Range"):
+                counts += [f_["e"] for f_ in st_["fields"] if f_["name"] == "end"]
+        if not counts:
+            ok = None
+        else:
+            ok = all("." in (place(hir.strip_ref(hir.strip(x_))) or "") and not any(
+                y_.get("k") in ("Binary", "Lit") for y_ in hir.nodes(x_)) for x_ in counts)
         out.add("FormattingOptions::indentation", "one indentation level = indent_symbol repeated exactly indent_depth times", ok, c.loc(ind[0]["sp"]),
                 "the unit must be exactly the requested one (tabSize 0 means no indentation)")
     f = prog.body("lsp4spl::features::formatting::format")
